@@ -26,41 +26,53 @@ def run(ck, an, tier):
     s5(ck, an)
 
 
-def s1(ck, an):
+# Reference implementation of Transmitter._reset's step selection. It is compared with the code through value ids (the
+# evaluator that normalises the code normalises this text too): local names, temporaries, `p /= s` vs `p = p / s`,
+# if/else vs conditional expressions and mirrored comparisons (`steps >= lo`) do not matter; which steps are kept does.
+REF_RESET = """
+def _reset(self, {fold}, {length}, {span}):
+    lo, hi = self._folds[{fold}]
+    steps = np.sort(list({union}))
+    steps = steps[lo <= steps]
+    steps = steps[steps <= hi]
+    if {length} is not None:
+        cands = steps[: -({length} - 1)]
+        if {span} is not None:
+            w = (1 - (1 / {span})) ** np.arange(len(cands))[::-1]
+            w = w / w.sum()
+        else:
+            w = None
+        i = np.random.choice(range(len(cands)), p=w)
+        steps = steps[i : i + {length}]
+    self._steps = steps
+"""
+UNIONS = ("set(self._partition_nonlatent) | set(self._partition_latent)", "set(self._partition_latent) | set(self._partition_nonlatent)",
+          "set(self._partition_nonlatent).union(self._partition_latent)", "set(self._partition_latent).union(self._partition_nonlatent)")
+
+
+def _reset_regimes(ck, an, regimes):
     fa = an.fa("Transmitter._reset")
     subj = fa.f.short
-    masks = []
-    for s in all_stmts(fa):
-        if isinstance(s, ast.Assign) and isinstance(s.value, ast.Subscript) and isinstance(s.value.slice, ast.Compare) and isinstance(s.targets[0], ast.Name):
-            c = fa.sym.cmp(s.value.slice, fa.node_of(s).id)
-            masks.append((s, c))
-    lower = upper = False
-    for s, c in masks:
-        if c[0] != "rel":
-            continue
-        p = c[4]
-        if c[1] == "<=" and poly_mentions(p, "self._folds[fold_name]", sign=+1) and "[0]" in p.key() and any("steps" in a or "np.sort" in a or "numpy.sort" in a for a in p.atoms()):
-            lower = True
-        if c[1] == "<=" and poly_mentions(p, "self._folds[fold_name]", sign=-1) and "[1]" in p.key():
-            upper = True
-        if c[1] == "<" and "self._folds[fold_name]" in p.key():
-            ck.fail("CMP", "S1.fold-window-inclusive", subj, fa.loc(s), "a fold boundary is excluded (strict comparison): a step exactly at the fold's start or end is lost", construct=stmt_text(s))
-    ck.check(lower, "CMP", "S1.fold-lower-bound", subj, fa.f.loc, "steps satisfy start_date <= step (inclusive)", "no inclusive lower fold bound on the steps", construct="steps = steps[start_date <= steps]")
-    ck.check(upper, "CMP", "S1.fold-upper-bound", subj, fa.f.loc, "steps satisfy step <= end_date (inclusive)", "no inclusive upper fold bound on the steps", construct="steps = steps[steps <= end_date]")
-    # sorted before filtering; candidate steps are the partition keys
-    sdefs = [d for d in fa.rd.defs if d.var == "steps" and d.kind == "assign"]
-    first = sdefs[0] if sdefs else None
-    k = fa.sym.canon(first.value, first.node) if first else "?"
-    ck.check(k.startswith(("np.sort(", "numpy.sort(", "sorted(")) and "_partition_nonlatent" in k and "_partition_latent" in k, "IDIOM", "S1.steps-sorted-event-bearing", subj, fa.loc(first.ast) if first else fa.f.loc,
-             "candidate steps are the sorted union of the event-bearing timesteps of both partitions", f"candidate steps are {k[:120]}", construct="steps = np.sort(list(timesteps))")
-    # the fold is the one asked for
-    fd = [d for d in fa.rd.defs if d.kind == "unpack" and d.var in ("start_date", "end_date")]
-    ok = bool(fd) and all(ast.unparse(d.ast.value) == "self._folds[fold_name]" for d in fd if isinstance(d.ast, ast.Assign) and isinstance(d.ast.targets[0], ast.Tuple))
-    ck.check(ok, "ARGFLOW", "S1.selected-fold", subj, fa.f.loc, "the window is the requested fold's (start, end)", "start/end do not come from self._folds[fold_name]", construct="start_date, end_date = self._folds[fold_name]")
-    # final state
-    st = [s for s in assigns_to_attr(fa, "_steps")]
-    ck.check(len(st) == 1 and isinstance(st[0], ast.Assign) and ast.unparse(st[0].value) == "steps", "ARGFLOW", "S1.steps-stored", subj, fa.f.loc, "the filtered steps become the episode's steps",
-             f"_steps = {[ast.unparse(s.value) for s in st if isinstance(s, ast.Assign)]}", construct="self._steps = steps")
+    ps = fa.f.params
+    if len(ps) < 4:
+        ck.fail("LIN", "S1.fold-steps", subj, fa.f.loc, "_reset no longer takes (fold_name, episode_length, sampling_span)", construct="_reset signature")
+        return
+    fold, length, span = ps[1:4]
+    refs = [reference(fa, REF_RESET.format(fold=fold, length=length, span=span, union=u)) for u in UNIONS]
+    for name, facts, what in regimes:
+        facts = [t.format(length=length, span=span) for t in facts]
+        got = stored_attr_under(fa, "_steps", facts)
+        wants = [stored_attr_under(r, "_steps", facts) for r in refs]
+        ck.check(got is not None and got in wants, "LIN", name, subj, fa.f.loc, what,
+                 f"the episode's steps are {str(got)[:400]}; specified {str(wants[0])[:400]}", construct="self._steps = steps",
+                 witness=[f"got       {got}", f"specified {wants[0]}"])
+
+
+def s1(ck, an):
+    _reset_regimes(ck, an, [("S1.fold-steps", ["{length} is None"],
+                             "without an episode length the steps are the sorted event-bearing timesteps of both partitions with fold start <= t <= fold end (both inclusive), of the requested fold")])
+    fa = an.fa("Transmitter._reset")
+    subj = fa.f.short
     fv = an.fa("PartitionTimeRanges.verify_start_before_end")
     ok = False
     floops = [n for n in walk_function(fv.f.node) if isinstance(n, ast.For) and fv.sym.canon(n.iter) == "self.folds.items()"]
@@ -89,95 +101,25 @@ def s1(ck, an):
 
 
 def s2(ck, an):
+    _reset_regimes(ck, an, [
+        ("S2.episode-window", ["{length} is not None", "{span} is None"],
+         "with an episode length L the steps are steps[i : i + L] with i drawn by np.random.choice over range(len(steps[: -(L - 1)])): exactly L consecutive steps, starting at any position where they fit"),
+        ("S2.sampling-weights", ["{length} is not None", "{span} is not None"],
+         "with a sampling span the draw is weighted by (1 - 1/span) ** age, one weight per candidate start, normalised to 1"),
+    ])
     fa = an.fa("Transmitter._reset")
-    subj = fa.f.short
-    L = Poly.atom("episode_length")
-    seen = {}
-
-    def assume(s, fw):
-        c = fw.cmp(s.test)
-        if c[0] == "is" and "episode_length" in (c[1], c[2]) and "None" in (c[1], c[2]):
-            return not c[3] if True else None     # take the branch where episode_length is not None
-        if c[0] == "is" and "sampling_span" in (c[1], c[2]):
-            return None
-        return None
-
-    def on_stmt(s, fw):
-        if isinstance(s, ast.Assign) and isinstance(s.targets[0], ast.Name):
-            seen[s.targets[0].id + "@" + str(s.lineno)] = (s, fw)
-    # read the slices syntactically, the index algebra through the value-id domain
-    sd = [d for d in fa.rd.defs if d.var == "start_dates" and d.kind == "assign"]
-    ok = False
-    detail = "start_dates is not defined"
-    for d in sd:
-        v = d.value
-        if isinstance(v, ast.Subscript) and isinstance(v.slice, ast.Slice) and v.slice.lower is None and v.slice.step is None and v.slice.upper is not None:
-            up = fa.sym.ev(v.slice.upper, d.node)
-            detail = f"start_dates = steps[:{up.key()}]"
-            ok = up == Poly.const(1) - L and isinstance(v.value, ast.Name) and v.value.id == "steps"
-    ck.check(ok, "LIN", "S2.candidate-starts", subj, fa.f.loc, "candidate starts are steps[: -(L-1)]: exactly the positions where L consecutive steps fit", f"{detail}; expected steps[:1 + -episode_length]",
-             construct="start_dates = steps[: -(episode_length - 1)]")
-    ed = [d for d in fa.rd.defs if d.var == "end_date_idx" and d.kind == "assign"]
-    sidx = [d for d in fa.rd.defs if d.var == "start_date_idx" and d.kind == "assign"]
-    # window slice
-    win = None
-    for d in fa.rd.defs:
-        if d.var == "steps" and d.kind == "assign" and isinstance(d.value, ast.Subscript) and isinstance(d.value.slice, ast.Slice) and d.value.slice.lower is not None and d.value.slice.upper is not None:
-            win = d
-    if win is None:
-        ck.fail("LIN", "S2.window-length", subj, fa.f.loc, "no steps[i:j] window for a configured episode length", construct="steps = steps[start_date_idx : end_date_idx + 1]")
-    else:
-        lo = fa.sym.ev(win.value.slice.lower, win.node)
-        hi = fa.sym.ev(win.value.slice.upper, win.node)
-        ck.check(hi - lo == L, "LIN", "S2.window-length", subj, fa.loc(win.ast), "the episode window steps[i : j] has exactly episode_length steps (j - i = L)",
-                 f"window length j - i = {(hi - lo).key()}, expected episode_length", construct=ast.unparse(win.ast))
-        sg = fa.guard_predicates(win.ast)
-        ck.check(any(p[0] == "is" and "episode_length" in (p[1], p[2]) and not p[3] for p in sg), "GUARD", "S2.window-only-when-length-given", subj, fa.loc(win.ast), "the window is cut only when an episode length is given",
-                 f"window guarded by {[cmp_key(p) for p in sg]}", construct=ast.unparse(win.ast))
-        # the lower index is the sampled start, drawn over every candidate
-        ch = [c for c in fa.calls_named("choice")]
-        okc = False
-        detail = "no np.random.choice draw"
-        for c in ch:
-            at = fa.node_of(c).id
-            a0 = fa.sym.canon(c.args[0], at) if c.args else "?"
-            want = fa.sym.canon(ast.parse("range(len(start_dates))", mode="eval").body, at)
-            detail = f"draw over {a0[:100]}"
-            st_ = enclosing_stmt(c)
-            same = isinstance(st_, ast.Assign) and isinstance(st_.targets[0], ast.Name) and fa.sym.ev(ast.Name(id=st_.targets[0].id, ctx=ast.Load()), win.node) == lo
-            if a0 == want and same:
-                okc = True
-            kws = {k.arg: ast.unparse(k.value) for k in c.keywords}
-            ck.check(kws.get("p") == "p" and "replace" not in kws and "size" not in kws, "IDIOM", "S2.draw-uses-weights", subj, fa.loc(c), "the draw uses the (optional) sampling weights p and returns one index",
-                     f"np.random.choice keywords: {kws}", construct=stmt_text(c))
-        ck.check(okc, "ARGFLOW", "S2.start-drawn-over-all-candidates", subj, fa.loc(win.ast), "the window starts at an index drawn by np.random.choice over range(len(start_dates)): any fitting position can be drawn",
-                 f"the window start is not a draw over all candidate starts: {detail}", construct="start_date_idx = np.random.choice(range(len(start_dates)), p=p)")
-    # weights normalised
-    norm = [s for s in all_stmts(fa) if isinstance(s, ast.AugAssign) and isinstance(s.op, ast.Div) and isinstance(s.target, ast.Name) and ast.unparse(s.value) == f"{s.target.id}.sum()"]
-    pdefs = [d for d in fa.rd.defs if d.var == "p"]
-    ck.check(bool(norm) or all(d.kind == "assign" and const_value(d.value) is None for d in pdefs), "LIN", "S2.weights-normalised", subj, fa.f.loc, "sampling weights are normalised to 1", "sampling weights are not normalised",
-             construct="p /= p.sum()")
-    for d in pdefs:
-        if d.kind == "assign" and isinstance(d.value, ast.BinOp):
-            k = fa.sym.canon(d.value, d.node)
-            ck.check("np.arange(len(" in k and "[::-1]" in k, "LIN", "S2.weights-cover-candidates", subj, fa.loc(d.ast), "one weight per candidate start, decaying into the past", f"weights are {k[:120]}", construct=ast.unparse(d.ast))
+    for c in fa.calls_named("choice"):
+        kws = {k.arg for k in c.keywords}
+        ck.check("replace" not in kws and "size" not in kws and len(c.args) == 1, "IDIOM", "S2.draw-uses-weights", fa.f.short, fa.loc(c), "the draw returns one index", f"np.random.choice is called with {sorted(kws)}", construct=stmt_text(c))
 
 
 def s3(ck, an):
     fi = an.fa("TradingEnv.__init__")
-    incs = [s for s in all_stmts(fi) if isinstance(s, ast.AugAssign) and isinstance(s.target, ast.Name) and s.target.id == "episode_length"]
-    ok = len(incs) == 1 and isinstance(incs[0].op, ast.Add) and const_value(incs[0].value) == 1
-    if ok:
-        sg = fi.syntactic_guards(incs[0])
-        ok = len(sg) == 1 and sg[0][0] == "truthy" and sg[0][1] == "episode_length" and sg[0][2]
-    ck.check(ok, "LIN", "S3.n-decisions-n-plus-1-states", fi.f.short, fi.f.loc, "a configured episode_length n is turned into n + 1 states (n decisions)", "episode_length is not incremented by exactly 1 when configured",
-             construct="if episode_length: episode_length += 1")
-    st = [s for s in assigns_to_attr(fi, "_episode_length")]
-    if incs and st:
-        okb = all(fi.reachable_from(i, x) and not fi.reachable_from(x, i) for i in incs for x in st)
-        ck.check(okb, "ORD", "S3.increment-before-store", fi.f.short, fi.loc(st[0]), "the increment happens before the length is stored", "the length is stored before it is incremented", construct=stmt_text(st[0]))
-    ck.check(len(st) == 1 and isinstance(st[0], ast.Assign) and ast.unparse(st[0].value) == "episode_length", "ARGFLOW", "S3.length-stored", fi.f.short, fi.f.loc, "_episode_length is the (incremented) configured length",
-             f"_episode_length = {[ast.unparse(s.value) for s in st if isinstance(s, ast.Assign)]}", construct="self._episode_length = episode_length")
+    # the stored length, by value id over the constructor's parameter: n + 1 when a length is configured, the (falsy) argument itself otherwise
+    got = stored_attr_under(fi, "_episode_length")
+    want = specv(fi, "episode_length + 1 if episode_length else episode_length").key()
+    ck.check(got == want, "LIN", "S3.n-decisions-n-plus-1-states", fi.f.short, fi.f.loc, "a configured episode_length n is stored as n + 1 states (n decisions)",
+             f"_episode_length = {got}; specified {want}", construct="if episode_length: episode_length += 1")
     own_writers(ck, an, "S3.configured-length-fixed", "TradingEnv", "_episode_length", {"TradingEnv.__init__"}, min_sites=1)
     fr = an.fa("TradingEnv.reset")
     rs = fr.calls_to("Transmitter._reset", "AbstractTransmitter._reset")
@@ -211,10 +153,11 @@ def s5(ck, an):
     fa = an.fa("Transmitter.walk_forward")
     subj = fa.f.short
     rets = returns_in(fa)
-    if len(rets) != 1 or not isinstance(rets[0].value, ast.Call):
+    rcall, rat = deref(fa, rets[0].value) if len(rets) == 1 else (None, None)
+    if rcall is None or not isinstance(rcall, ast.Call):
         ck.fail("LIN", "S5.walk-forward", subj, fa.f.loc, "walk_forward does not return Folds(...)", construct="return Folds(...)")
         return
-    kw = {k.arg: fa.sym.ev(k.value) for k in rets[0].value.keywords}
+    kw = {k.arg: fa.sym.ev(k.value, rat) for k in rcall.keywords}
     need = ["train_start", "train_end", "test_start", "test_end"]
     if any(n not in kw for n in need):
         ck.fail("LIN", "S5.walk-forward", subj, fa.loc(rets[0]), f"Folds(...) lacks one of {need}", construct=stmt_text(rets[0]))
@@ -225,9 +168,19 @@ def s5(ck, an):
     ck.check(kw["test_start"] - kw["train_end"] == Poly.const(1), "LIN", "S5.test-follows-train", subj, fa.loc(rets[0]), "test_start = train_end + 1", f"test_start - train_end = {(kw['test_start'] - kw['train_end']).key()}",
              construct="test_start")
     # train_start (sliding) and stride
-    base_defs = [d for d in fa.rd.defs if d.var == "train_start" and d.kind == "assign"]
+    # the sliced fold starts: the value every window is offset from (test_start - train_size), found by value id, not by a variable's name
+    B = kw["test_start"] - tr
+    class _D:      # (value expression, node id) of the slicing expression whose value id is B
+        pass
+    base_defs = []
+    for n_ in walk_function(fa.f.node):
+        if isinstance(n_, ast.Subscript) and isinstance(n_.slice, ast.Slice) and fa.cfg.node_of(n_) is not None and fa.sym.ev(n_, fa.cfg.node_of(n_).id) == B:
+            d_ = _D()
+            d_.value, d_.node, d_.ast = n_, fa.cfg.node_of(n_).id, n_
+            base_defs.append(d_)
+    base_defs = base_defs[:1]
     stride_ok = size_ok = False
-    detail = ""
+    detail = f"fold starts = {B.key()[:120]}"
     for d in base_defs:
         v = d.value
         if isinstance(v, ast.Subscript) and isinstance(v.slice, ast.Slice):
@@ -239,14 +192,14 @@ def s5(ck, an):
             size_ok = up is not None and up == Poly.const(1) - tr - ts
             base = fa.sym.canon(v.value, d.node)
             ck.check(base in ("np.arange(len(self.timesteps))", "numpy.arange(len(self.timesteps))"), "ARGFLOW", "S5.indices-over-grid", subj, fa.loc(d.ast), "fold indices range over the whole grid",
-                     f"fold indices range over {base}", construct=ast.unparse(d.ast))
+                     f"fold indices range over {base}", construct="count = np.arange(len(self.timesteps))")
     ck.check(stride_ok, "LIN", "S5.stride-is-test-size", subj, fa.f.loc, "consecutive folds advance by test_size: test windows are adjacent and disjoint", f"stride is not test_size: {detail}", construct="[:: test_size]")
     ck.check(size_ok, "LIN", "S5.last-fold-fits", subj, fa.f.loc, "the last training start leaves room for train_size + test_size steps", f"upper bound of starts: {detail}; expected 1 - train_size - test_size",
              construct="[: -train_size - test_size + 1]")
     t0 = Poly.atom("train_start") if False else None
     # train_end - base + 1 == train_size  (base = the sliced starts)
     if base_defs:
-        b = fa.sym.ev(ast.Name(id="train_start", ctx=ast.Load()), fa.node_of(rets[0]).id)
+        b = B
         ck.check(kw["train_end"] - b + Poly.const(1) == tr, "LIN", "S5.train-window-size", subj, fa.loc(rets[0]), "train_end - train_start + 1 = train_size (sliding window)",
                  f"train_end - start + 1 = {(kw['train_end'] - b + Poly.const(1)).key()}", construct="train window")
         sl = kw["train_start"]
@@ -255,7 +208,8 @@ def s5(ck, an):
     ff = an.fa("Folds.as_time")
     rets = returns_in(ff)
     okm = False
-    if len(rets) == 1 and isinstance(rets[0].value, ast.Call):
-        kw2 = {k.arg: ast.unparse(k.value) for k in rets[0].value.keywords}
-        okm = all(kw2.get(n) == f"timesteps[self.{n}]" for n in need)
+    rc2, rat2 = deref(ff, rets[0].value) if len(rets) == 1 else (None, None)
+    if rc2 is not None and isinstance(rc2, ast.Call):
+        kw2 = {k.arg: ff.sym.canon(k.value, rat2) for k in rc2.keywords}
+        okm = all(kw2.get(n) in (specv(ff, f"np.array(self.timesteps)[self.{n}]").key(), specv(ff, f"numpy.array(self.timesteps)[self.{n}]").key(), specv(ff, f"self.timesteps[self.{n}]").key()) for n in need)
     ck.check(okm, "ARGFLOW", "S5.as-time-maps-own-index", ff.f.short, ff.f.loc, "as_time maps each index array to timesteps of the same name", "as_time mixes up the index arrays", construct="Folds.as_time")
